@@ -6,6 +6,7 @@ import (
 	"fmt"
 	"math/rand"
 	"os"
+	"runtime"
 	"strings"
 	"sync"
 	"sync/atomic"
@@ -190,6 +191,22 @@ func subdecRun(r *tr.Run, rng *rand.Rand, waitCancel bool) {
 		}()
 	}
 	nclosers := 1 + rnd(2) // Close calls may overlap: the second begins once the first has
+	abreast := nclosers == 2 && rnd(2) == 0
+	if abreast {
+		// both calls are held where the inner Close has returned and go on from there together
+		g := sched.Park("decorator.close.inner_closed", verifhook.Ptr(dec))
+		g.Abreast = true
+		defer g.Release()
+		wg.Add(1)
+		go func() {
+			defer wg.Done()
+			deadline := time.Now().Add(HangBound / 4)
+			for g.Arrivals() < 2 && time.Now().Before(deadline) {
+				time.Sleep(50 * time.Microsecond)
+			}
+			g.Release()
+		}()
+	}
 	for ci := 1; ci <= nclosers; ci++ {
 		c := fmt.Sprintf("c%d", ci)
 		wg.Add(1)
@@ -203,20 +220,61 @@ func subdecRun(r *tr.Run, rng *rand.Rand, waitCancel bool) {
 			}
 			if c != "c1" {
 				<-closeStarted
-				nap()
+				if !abreast {
+					nap()
+				}
 			}
 			closerOf.Store(goid(), c)
 			r.Emit("closecall", "c", c)
 			if c == "c1" {
 				close(closeStarted)
 			}
-			_ = dec.Close()
+			if p, v := Guarded(func() { _ = dec.Close() }); p {
+				r.Emit("panic", "where", "Close", "val", v)
+				return
+			}
 			r.Emit("closeret", "c", c)
 		}()
 	}
 	if !WaitOrHang(waitWG(&wg)) {
 		r.Emit("hung", "what", "decorator scenario")
 		return
+	}
+	r.Emit("end")
+	r.NonTrivial = true
+}
+
+// subdecCloseHammer: many rounds of two Close calls on a fresh decorator that are held where the inner Close has returned and let go
+// together, so that they give the closing signal at the same instant. Only anomalies (a panic, a call that does not return) are logged.
+func subdecCloseHammer(r *tr.Run, rounds int) {
+	for i := 0; i < rounds; i++ {
+		inner := scripted.NewSub("inner")
+		dec, err := message.MessageTransformSubscriberDecorator(func(*message.Message) {})(inner)
+		if err != nil {
+			r.Emit("error", "what", err.Error())
+			return
+		}
+		g := sched.Park("decorator.close.inner_closed", verifhook.Ptr(dec))
+		g.Abreast = true
+		var wg sync.WaitGroup
+		for k := 0; k < 2; k++ {
+			wg.Add(1)
+			go func() {
+				defer wg.Done()
+				if p, v := Guarded(func() { _ = dec.Close() }); p {
+					r.Emit("panic", "where", "two Close calls abreast", "val", v, "round", i)
+				}
+			}()
+		}
+		deadline := time.Now().Add(HangBound / 4)
+		for g.Arrivals() < 2 && time.Now().Before(deadline) {
+			runtime.Gosched()
+		}
+		g.Release()
+		if !WaitOrHang(waitWG(&wg)) {
+			r.Emit("hung", "what", "two Close calls abreast", "round", i)
+			return
+		}
 	}
 	r.Emit("end")
 	r.NonTrivial = true
